@@ -9,6 +9,7 @@ CONSTANTS
   BodyMode = "all"
   StyleMode = "all"
   PhraseMode = "reg"
+  ManyMode = "none"
   MaxBig = 9
 INIT MCInit
 NEXT GenNext
